@@ -388,6 +388,21 @@ fn gen_history_inner(r: &mut Rng, o: &GenOpts, cfg: Cfg) -> History {
                 aops.push(Op::wa(pts, data));
             }
         }
+        // some recorders stamp audio with the video clock: exact cross-track ties at t > 0
+        if r.chance(1, 6) && !use_encode_a {
+            for op in aops.iter_mut() {
+                if let Op::WriteAudio { pts, .. } = op {
+                    if r.chance(1, 3) {
+                        let p = f64::from_bits(*pts);
+                        if let Some(&(vp, _)) = vt.iter().min_by(|a, b| (a.0 - p).abs().partial_cmp(&(b.0 - p).abs()).unwrap_or(std::cmp::Ordering::Equal)) {
+                            if vp >= first_v_pts {
+                                *pts = vp.to_bits();
+                            }
+                        }
+                    }
+                }
+            }
+        }
         // keep audio non-decreasing after the "equal" trick
         let mut last = f64::MIN;
         for op in aops.iter_mut() {
@@ -440,7 +455,14 @@ fn gen_history_inner(r: &mut Rng, o: &GenOpts, cfg: Cfg) -> History {
             let vk = if r.chance(1, 2) { FrameKind::KeyCfg } else { FrameKind::Delta };
             let valid_v = video_frame(r, cfg.vcodec, vk, 12, false);
             let next_ts = |r: &mut Rng, p: Option<f64>| p.map(|x| x + 0.001 + r.f64_unit() * 0.01).unwrap_or(0.0);
-            let op = match r.below(12) {
+            let op = match r.below(13) {
+                12 => {
+                    // composition offset exactly at / next to the ends of the signed 32-bit field
+                    let base = ((next_ts(r, last_v) * 90_000.0).round().min(1e15) as i128) + 1;
+                    let k = (1i128 << 31) + *r.pick(&[-1i128, 0, 1]);
+                    let (p, d) = if r.chance(1, 2) { (base + k, base) } else { (base, base + k) };
+                    Op::wvd(p as f64 / 90_000.0, d as f64 / 90_000.0, valid_v, r.chance(3, 4))
+                }
                 0 => Op::wv(hostile_ts(r, last_v), valid_v, r.chance(1, 2)),
                 1 => {
                     let d = if cfg.vcodec == AV1 && r.chance(1, 3) { crate::model::av1::truncated_seq_unit(r) } else { hostile_bytes(r, &valid_v) };
